@@ -157,7 +157,7 @@ Definition xcfg_ex : xcfg :=
      crude := false; jacobi := false; can_improve := true |}.
 (* an exception in the preliminary float packet, then packets that never converge and never ask for more precision *)
 Definition xstubborn : xans :=
-  {| x_err := false; x_whichd := false; x_fpe := true; x_pre := false; x_back := false; x_regen1 := true; x_regen := true;
+  {| x_err := false; x_whichd := false; x_lc0 := false; x_fpe := true; x_pre := false; x_back := false; x_regen1 := true; x_regen := true;
      x_stop := false; x_best := false; x_stop2 := false; x_allapprox := false |}.
 Example C03_secular_ext_fpe_restart_then_packet_cap :
   xsteps xans xst (xstep caps_small xcfg_ex) xterminal 60 (fun _ => xstubborn) 0 xinit = 10
